@@ -752,16 +752,25 @@ func assign(n *node) {
 	}
 
 	if n.kind == defineStmt {
-		// Handle a multiple var declararation / assign. It cannot be a swap.
+		// Handle a multiple var declararation / assign. A redeclared variable may
+		// appear in the right hand side: evaluate all sources before setting any
+		// destination.
 		n.exec = func(f *frame) bltn {
+			t := make([]reflect.Value, len(svalue))
 			for i, s := range svalue {
+				if n.child[i].ident == "_" {
+					continue
+				}
+				t[i] = s(f)
+			}
+			for i, v := range t {
 				if n.child[i].ident == "_" {
 					continue
 				}
 				data := getFrame(f, level[i]).data
 				j := index[i]
 				data[j] = reflect.New(data[j].Type()).Elem()
-				data[j].Set(s(f))
+				data[j].Set(v)
 			}
 			return next
 		}
